@@ -5,6 +5,7 @@ go 1.17
 require (
 	github.com/MinterTeam/mhub2/module v0.0.0
 	github.com/cosmos/cosmos-sdk v0.45.4
+	github.com/ethereum/go-ethereum v1.10.25
 	github.com/tendermint/tendermint v0.34.19
 	github.com/tendermint/tm-db v0.6.6
 )
@@ -24,7 +25,6 @@ require (
 	github.com/cosmos/iavl v0.17.3 // indirect
 	github.com/davecgh/go-spew v1.1.1 // indirect
 	github.com/dvsekhvalnov/jose2go v0.0.0-20200901110807-248326c1351b // indirect
-	github.com/ethereum/go-ethereum v1.10.25 // indirect
 	github.com/fsnotify/fsnotify v1.5.1 // indirect
 	github.com/go-kit/kit v0.12.0 // indirect
 	github.com/go-kit/log v0.2.0 // indirect
